@@ -131,6 +131,13 @@ def sk_as4_equal(ctx, s):
                   [K.prefix(ctx, 'n0', 3, False)])
 
 
+def sk_dup(ctx, s):
+    """RFC 7606 3.g: a repeated attribute keeps its FIRST occurrence, the others are ignored"""
+    return K.body([], _base(ctx, s != 'asn2') + [K.a_med(ctx, ext=False), K.attr(ctx, 'med2', 0x80, 4, K.sym(ctx, 'med2', 4), ext=False),
+                                               K.attr(ctx, 'origin2', 0x40, 1, K.sym(ctx, 'origin2', 1), ext=False)],
+                  [K.prefix(ctx, 'n0', 3, False)])
+
+
 def sk_mpreach(ctx, s):
     pid = s == 'addpath'
     return K.body([], [K.a_origin(ctx, ext=False), K.a_aspath(ctx, segs=(), asn4=s != 'asn2', ext=False), K.a_mp_reach(ctx, 2, 1, 16, (8, 6), pid)], [])
@@ -164,7 +171,7 @@ def sk_eor_mp(ctx, s):
 SKELETONS = {
     'basic': (sk_basic, ('asn4', 'asn2', 'addpath')), 'withdraw': (sk_withdraw, ('asn4', 'addpath')), 'mixed': (sk_mixed, ('asn4', 'addpath')),
     'attrs1': (sk_attrs1, ('asn4', 'asn2')), 'attrs2': (sk_attrs2, ('asn4',)), 'unknown': (sk_unknown, ('asn4',)),
-    'aspath2': (sk_aspath2, ('asn4', 'asn2')), 'as4': (sk_as4, ('asn2',)), 'as4-longer': (sk_as4_longer, ('asn2',)), 'as4-equal': (sk_as4_equal, ('asn2',)),
+    'aspath2': (sk_aspath2, ('asn4', 'asn2')), 'as4': (sk_as4, ('asn2',)), 'dup': (sk_dup, ('asn4',)), 'as4-longer': (sk_as4_longer, ('asn2',)), 'as4-equal': (sk_as4_equal, ('asn2',)),
     'mpreach': (sk_mpreach, ('asn4', 'addpath')), 'mpreach32': (sk_mpreach32, ('asn4',)), 'mpunreach': (sk_mpunreach, ('asn4', 'addpath')),
     'mpboth': (sk_mpboth, ('asn4', 'addpath')), 'eor4': (sk_eor4, ('asn4',)), 'eor-mp': (sk_eor_mp, ('asn4',)),
 }
